@@ -439,6 +439,11 @@ func runBatch(p *Prop, a *Agg, b batch, bin string) {
 }
 
 func caseSig(desc any) string {
+	if m, ok := desc.(map[string]any); ok {
+		if s, ok := m["sig"].(string); ok && s != "" {
+			return s
+		}
+	}
 	b, _ := json.Marshal(desc)
 	if len(b) > 200 {
 		h := uint64(1469598103934665603)
